@@ -72,9 +72,30 @@ def prelude(pairs):
         except Exception:  # noqa
             pass
 
+def bookkeeping(cases):
+    """ordinary in-place bookkeeping on public results of the units the cases use (running totals started from unit.quantify() and
+    from unprefixed quantities, scaled in place), BEFORE the cases run: none of it may change what those units are worth"""
+    seen = set()
+    for c in cases:
+        for side in ("l", "r"):
+            x = c.get(side)
+            if not isinstance(x, dict) or "u" not in x: continue
+            key = json.dumps(x["u"])
+            if key in seen: continue
+            seen.add(key)
+            try:
+                u = mk_unit(x["u"])
+                for start in (u.quantify(), Quantity(1, u).unprefixed(), 1 * u):
+                    t = start
+                    t += Quantity(2, u); t -= Quantity(1, u); t *= 3; t /= 4
+                    t = start; t += start
+            except Exception:  # noqa
+                pass
+
 def run(data):
     res = []
     prelude(data.get("prelude", []))
+    bookkeeping(data["cases"])
     for c in data["cases"]:
         rec = {}
         try:
